@@ -67,22 +67,33 @@ def explore(mod, tier: str) -> int:
                    jobs=min(core.n_jobs(), budget.get("jobs", 64)))
 
     unreproducible = []
+    max_min = getattr(mod, "MAX_MINIMISED", 5)       # a change that breaks everything yields hundreds of signatures:
+    max_rep = getattr(mod, "MAX_REPORTED", 12)       # a few are minimised, a few more confirmed, the rest only counted
+    done = 0
+    not_replayed = 0
     for sig in sorted(unknown):
+        if done >= max_rep and outcome.violations:
+            not_replayed += 1
+            continue
         path = None
         for case, msg in unknown[sig]:
             # first: does this case violate at all when executed from a clean process state?
             path = mod.write_replay(case, sig, msg, {"note": "not minimised"})
             if path is None:
                 continue
-            case2, info = mod.minimise(case, sig)
-            path2 = mod.write_replay(case2, sig, msg, info)
-            path = path2 or path
+            if done < max_min:
+                case2, info = mod.minimise(case, sig)
+                path2 = mod.write_replay(case2, sig, msg, info)
+                path = path2 or path
+            done += 1
             break
         if path is None:
             unreproducible.append(sig)
             continue
         outcome.violation(sig, path, msg)
     unreproducible += sorted(agg.get("unconfirmed", ()))
+    if not_replayed:
+        print(f"{mod.PROP}: {not_replayed} further violation signature(s) were observed and not replayed (limit {max_rep} per run)")
     if unreproducible:
         import sys
         print(f"{mod.PROP}: {len(unreproducible)} violation signature(s) were seen in worker processes but none of their "
